@@ -622,6 +622,108 @@ u_random(uint64_t idx, void *arg)
     VH_COUNT("random long transfers");
 }
 
+/* very long transfers: counts beyond 255, 65535 and 2^31 must not be truncated anywhere */
+static struct {
+    size_t total, moved, maxper;
+    int is_sink;
+    unsigned char *mem;
+    int mismatch;
+} big;
+
+static ssize_t
+big_chunk_src(void *drv, void *out, size_t n)
+{
+    (void)drv;
+    if (big.moved >= big.total)
+        return -ENODATA;
+    size_t k = n < big.maxper ? n : big.maxper;
+    if (k > big.total - big.moved)
+        k = big.total - big.moved;
+    unsigned char *o = out;
+    for (size_t i = 0; i < k; i++)
+        o[i] = STREAM(big.moved + i);
+    big.moved += k;
+    return (ssize_t)k;
+}
+
+static ssize_t
+big_chunk_snk(void *drv, const void *p, size_t n)
+{
+    (void)drv;
+    size_t k = n < big.maxper ? n : big.maxper;
+    const unsigned char *c = p;
+    for (size_t i = 0; i < k; i++)
+        if (c[i] != STREAM(big.moved + i))
+            big.mismatch = 1;
+    big.moved += k;
+    return (ssize_t)k;
+}
+
+static void
+u_big(uint64_t idx, void *arg)
+{
+    (void)arg;
+    static const size_t Ns[] = { 255, 256, 257, 65535, 65536, 65537, 100000, 300000 };
+    static const size_t pers[] = { 1, 7, 255, 256, 4096, 65535, 65536, 1u << 20 };
+    size_t N = Ns[idx % 8];
+    for (size_t pi = 0; pi < 8; pi++) {
+        if (N > 70000 && pers[pi] < 255)
+            continue;
+        vh_arena_reset();
+        unsigned char *mem = vh_arena(N);
+        Source s;
+        Sink k;
+        chunk_source_init(&s, big_chunk_src, NULL);
+        chunk_sink_init(&k, big_chunk_snk, NULL);
+        VH_CASE4(idx, N, pers[pi], 0);
+        memset(&big, 0, sizeof big);
+        big.total = N + 10;
+        big.maxper = pers[pi];
+        ssize_t rc = source_get_chunk(&s, mem, N);
+        int ok = rc == (ssize_t)N && big.moved == N;
+        for (size_t i = 0; ok && i < N; i++)
+            ok = mem[i] == STREAM(i);
+        if (!ok)
+            vh_fail("count", "api=source_get_chunk driver=chunk size=large", "N=%zu per call <= %zu: rc=%zd moved %zu", N,
+                    pers[pi], rc, big.moved);
+        memset(&big, 0, sizeof big);
+        big.maxper = pers[pi];
+        rc = sink_put_chunk(&k, mem, N);
+        if (rc != (ssize_t)N || big.moved != N || big.mismatch)
+            vh_fail("count", "api=sink_put_chunk driver=chunk size=large", "N=%zu per call <= %zu: rc=%zd moved %zu mismatch %d",
+                    N, pers[pi], rc, big.moved, big.mismatch);
+        /* plumbing with a large count and a small auxiliary buffer */
+        if (N <= 70000) {
+            unsigned char *auxmem = vh_arena(300);
+            ByteBuffer aux;
+            byte_buffer_space(&aux, auxmem, 300);
+            memset(&big, 0, sizeof big);
+            big.total = N + 10;
+            big.maxper = pers[pi];
+            size_t src_total = 0;
+            /* source and sink share the counter structure only through 'moved'; use separate runs */
+            Source s2;
+            chunk_source_init(&s2, big_chunk_src, NULL);
+            struct drv kd;
+            drv_init(&kd, 1, 1, 0, 0, 1u << 30);
+            kd.bound = 1u << 30;
+            Sink k2;
+            mk_snk(&k2, &kd);
+            rc = sts_n_aux(&s2, &k2, &aux, N);
+            src_total = big.moved;
+            int pfx = 1;
+            for (size_t i = 0; i < kd.pos && i < MAXS; i++)
+                pfx &= kd.sunk[i] == STREAM(i);
+            if (rc != (ssize_t)N || kd.pos != N || src_total != N || !pfx)
+                vh_fail("count", "api=sts_n_aux size=large", "N=%zu per call <= %zu: rc=%zd source moved %zu sink moved %zu", N,
+                        pers[pi], rc, src_total, kd.pos);
+        }
+        VH_COUNT("large transfers (counts beyond 255 / 65535)");
+        *vh_ncases += 3;
+    }
+    vh_sig(0x17600000ull ^ idx);
+}
+
 void
 harness_run(void)
 {
@@ -640,13 +742,15 @@ harness_run(void)
         vh_unit("plumb", i, u_plumb, NULL);
     for (uint64_t i = 0; i < (vh_tier ? 400u : 40u); i++)
         vh_unit("random", i, u_random, NULL);
+    for (uint64_t i = 0; i < 8; i++)
+        vh_unit("big", i, u_big, NULL);
     static const char *req[] = { "exact get: completed", "exact get: hard error path", "exact put: completed",
                                  "exact put: hard error path", "at-most: count returned", "at-most: error returned",
                                  "invalid count refused", "plumbing single round: moved",
                                  "plumbing single round: driver error", "plumbing counted: completed",
                                  "plumbing counted: driver error", "plumbing counted: source ended early",
                                  "plumbing drain: reached the source's end", "plumbing drain: driver error",
-                                 "random long transfers", "scripts of length 5 enumerated (chunk driver)",
+                                 "random long transfers", "large transfers (counts beyond 255 / 65535)", "scripts of length 5 enumerated (chunk driver)",
                                  "scripts of length 5 enumerated (octet driver)" };
     for (size_t i = 0; i < sizeof req / sizeof req[0]; i++)
         vh_require(req[i]);
